@@ -288,6 +288,50 @@ pub fn rng_preview(k: usize) -> [u8; DRAW_CAP] {
         RNG_PRE[k].1
     }
 }
+/// Bytes fixed in advance for "the draw of `len` bytes" (order-independent form of `rng_preview`: harmless reordering of two
+/// independent draws in the code under test must not change what a harness expects).
+pub static mut RNG_PRE_LEN: [(usize, u64, [u8; DRAW_CAP]); 4] = [(0, 0, [0; DRAW_CAP]); 4];
+pub fn rng_preview_len(len: usize) -> [u8; DRAW_CAP] {
+    unsafe {
+        let mut k = 0;
+        while k < 4 {
+            if RNG_PRE_LEN[k].0 == len {
+                return RNG_PRE_LEN[k].2;
+            }
+            if RNG_PRE_LEN[k].0 == 0 {
+                RNG_PRE_LEN[k] = (len, 0, fresh());
+                return RNG_PRE_LEN[k].2;
+            }
+            k += 1;
+        }
+    }
+    panic!("[model] capacity: more than 4 distinct previewed draw lengths");
+}
+/// the first draw of exactly `len` bytes in the ghost log (an all-default Draw with len 0 if there is none)
+pub fn rng_draw_of_len(len: usize) -> Draw {
+    unsafe {
+        let mut k = 0;
+        while k < RNG.n {
+            if RNG.d[k].len == len {
+                return RNG.d[k];
+            }
+            k += 1;
+        }
+    }
+    Draw { len: 0, ok: false, bytes: [0; DRAW_CAP] }
+}
+/// is there a (successful) draw of exactly `len` bytes in the ghost log?
+pub fn rng_has_len(len: usize) -> bool {
+    let mut found = false;
+    unsafe {
+        let mut k = 0;
+        while k < RNG.n {
+            found |= RNG.d[k].len == len && RNG.d[k].ok;
+            k += 1;
+        }
+    }
+    found
+}
 pub static mut RNG: RngLog = RngLog { n: 0, d: [Draw { len: 0, ok: false, bytes: [0; DRAW_CAP] }; DRAWS] };
 
 /// Assumed contract of the operating-system RNG: each draw either fails, or fills the whole buffer with arbitrary bytes.
@@ -300,7 +344,18 @@ pub fn rng_fill(buf: &mut [u8]) -> bool {
         // failure is nondeterministic only when the harness asked for it: a symbolic Ok/Err merge would make every
         // length downstream of the draw non-constant for CBMC (see DESIGN.md section 3)
         let ok: bool = if rng_can_fail() { fresh::<1>()[0] & 1 == 1 } else { true };
-        let bytes: [u8; DRAW_CAP] = if RNG_PRE[n].0 { RNG_PRE[n].1 } else { fresh() };
+        let mut bytes: [u8; DRAW_CAP] = if RNG_PRE[n].0 { RNG_PRE[n].1 } else { fresh() };
+        // a preview registered by length wins (first unused entry of that length)
+        let mut k = 0;
+        let mut taken = false;
+        while k < 4 {
+            if !taken && RNG_PRE_LEN[k].0 == buf.len() && RNG_PRE_LEN[k].0 != 0 && RNG_PRE_LEN[k].1 == 0 {
+                bytes = RNG_PRE_LEN[k].2;
+                RNG_PRE_LEN[k].1 = 1;
+                taken = true;
+            }
+            k += 1;
+        }
         RNG.d[n] = Draw { len: buf.len(), ok, bytes };
         RNG.n = n + 1;
         if ok {
